@@ -2,6 +2,7 @@ package ads
 
 import (
 	"crypto/sha256"
+	"sort"
 	"sync"
 
 	"github.com/pokt-network/smt"
@@ -28,9 +29,21 @@ type authenticatedMap[IdentifierType types.IdentifierType, K, V any] struct {
 	root         *kvstore.TypedValue[IdentifierType]
 	mutex        sync.RWMutex
 
+	// pendingRawKeys and pendingSizeDelta hold the changes of the raw key index and of the size since the last Commit:
+	// like the nodes of the tree they reach the store with Commit only, so that an instance that is opened over the
+	// store sees the index and the size of the root it finds there.
+	pendingRawKeys   map[string]pendingRawKey[K]
+	pendingSizeDelta int
+
 	keyToBytes   kvstore.ObjectToBytes[K]
 	valueToBytes kvstore.ObjectToBytes[V]
 	bytesToValue kvstore.BytesToObject[V]
+}
+
+// pendingRawKey is a change of the raw key index that has not been committed yet.
+type pendingRawKey[K any] struct {
+	key     K
+	deleted bool
 }
 
 // NewAuthenticatedMap creates a new authenticated map.
@@ -51,6 +64,8 @@ func newAuthenticatedMap[IdentifierType types.IdentifierType, K, V any](
 		keyToBytes:   keyToBytes,
 		valueToBytes: valueToBytes,
 		bytesToValue: bytesToValue,
+
+		pendingRawKeys: make(map[string]pendingRawKey[K]),
 	}
 
 	mapStoreAdapter := newMapStoreAdapter(lo.PanicOnErr(store.WithExtendedRealm([]byte{prefixTreeStorage})))
@@ -107,14 +122,9 @@ func (m *authenticatedMap[IdentifierType, K, V]) Set(key K, value V) error {
 		return ierrors.Wrap(err, "failed to update tree")
 	}
 
-	if err := m.rawKeysStore.Set(key, types.Void); err != nil {
-		return ierrors.Wrap(err, "failed to set raw key")
-	}
-
+	m.pendingRawKeys[string(keyBytes)] = pendingRawKey[K]{key: key}
 	if !has {
-		if err := m.addSize(1); err != nil {
-			return ierrors.Wrap(err, "failed to increase size")
-		}
+		m.pendingSizeDelta++
 	}
 
 	return nil
@@ -127,16 +137,34 @@ func (m *authenticatedMap[IdentifierType, K, V]) Size() int {
 
 	size, err := m.size.Get()
 	if err != nil {
-		return 0
+		size = 0
 	}
 
-	return int(size)
+	return int(size) + m.pendingSizeDelta
 }
 
 // Commit persists the current state of the map to the storage.
 func (m *authenticatedMap[IdentifierType, K, V]) Commit() error {
 	m.mutex.Lock()
 	defer m.mutex.Unlock()
+
+	for keyBytes, pending := range m.pendingRawKeys {
+		if pending.deleted {
+			if err := m.rawKeysStore.Delete(pending.key); err != nil {
+				return ierrors.Wrap(err, "failed to delete from raw keys store")
+			}
+		} else if err := m.rawKeysStore.Set(pending.key, types.Void); err != nil {
+			return ierrors.Wrap(err, "failed to set raw key")
+		}
+		delete(m.pendingRawKeys, keyBytes)
+	}
+
+	if m.pendingSizeDelta != 0 {
+		if err := m.addSize(m.pendingSizeDelta); err != nil {
+			return ierrors.Wrap(err, "failed to update size")
+		}
+		m.pendingSizeDelta = 0
+	}
 
 	if err := m.root.Set(IdentifierType(m.tree.Root())); err != nil {
 		return ierrors.Wrap(err, "failed to set root")
@@ -168,15 +196,8 @@ func (m *authenticatedMap[IdentifierType, K, V]) Delete(key K) (deleted bool, er
 		return false, ierrors.Wrap(err, "failed to delete from tree")
 	}
 
-	if err := m.rawKeysStore.Delete(key); err != nil {
-		return false, ierrors.Wrap(err, "failed to delete from raw keys store")
-	}
-
-	if has {
-		if err := m.addSize(-1); err != nil {
-			return false, ierrors.Wrap(err, "failed to decrease size")
-		}
-	}
+	m.pendingRawKeys[string(keyBytes)] = pendingRawKey[K]{key: key, deleted: true}
+	m.pendingSizeDelta--
 
 	return true, nil
 }
@@ -231,12 +252,21 @@ func (m *authenticatedMap[IdentifierType, K, V]) Stream(callback func(key K, val
 	defer m.mutex.Unlock()
 
 	var innerErr error
-	if iterationErr := m.rawKeysStore.IterateKeys([]byte{}, func(key K) bool {
+	// the keys of the committed index that were not deleted since the last Commit, then the keys added since
+	streamedPendingKeys := make(map[string]struct{})
+	streamKey := func(key K) bool {
 		keyBytes, err := m.keyToBytes(key)
 		if err != nil {
 			innerErr = ierrors.Wrapf(err, "failed to serialize key %s", keyBytes)
 
 			return false
+		}
+
+		if pending, isPending := m.pendingRawKeys[string(keyBytes)]; isPending {
+			if _, streamed := streamedPendingKeys[string(keyBytes)]; streamed || pending.deleted {
+				return true
+			}
+			streamedPendingKeys[string(keyBytes)] = struct{}{}
 		}
 
 		valueBytes, valueErr := m.tree.Get(keyBytes)
@@ -260,8 +290,23 @@ func (m *authenticatedMap[IdentifierType, K, V]) Stream(callback func(key K, val
 		}
 
 		return true
-	}); iterationErr != nil {
+	}
+	if iterationErr := m.rawKeysStore.IterateKeys([]byte{}, streamKey); iterationErr != nil {
 		return ierrors.Wrap(iterationErr, "failed to iterate over raw keys")
+	}
+	if innerErr != nil || len(m.pendingRawKeys) == 0 {
+		return innerErr
+	}
+
+	pendingKeys := make([]string, 0, len(m.pendingRawKeys))
+	for keyBytes := range m.pendingRawKeys {
+		pendingKeys = append(pendingKeys, keyBytes)
+	}
+	sort.Strings(pendingKeys)
+	for _, keyBytes := range pendingKeys {
+		if !streamKey(m.pendingRawKeys[keyBytes].key) {
+			break
+		}
 	}
 
 	return innerErr
